@@ -306,192 +306,226 @@ func ruleJS(c *Ctx) {
 	c.Rule("JS-BAL", "an object schema is written as one balanced JSON object: begin, then name/value pairs, then end", 1)
 	c.Rule("JS-KEY", "each attribute name written is followed by the value of the schema field that carries that attribute", 8)
 	c.Rule("JS-EXH", "every attribute of the schema object is written somewhere, and each complex type writes the attribute the specification gives it", 9+5)
-	paths, ok := jsPathsOf(P, mfn, 0)
-	if !ok {
-		c.Rule("JS-BAL", "", 0)
-		c.Unk(fnKey(mfn)+"/paths", P.pos(mfn.Pos()), "path budget exceeded")
-		return
-	}
-	typePath := "*(s->Type)"
-	if len(mfn.Params) > 0 {
-		typePath = "*(" + mfn.Params[0].Name() + "->Type)"
-	}
-	balanced := true
-	balWhy := ""
-	nObj := 0
-	written := map[string]bool{}               // SchemaObject fields written on some path
-	attrByType := map[string]map[string]bool{} // s.Type constant -> names written
-	keyOK := map[string]string{}               // name -> "" ok or reason
-	for _, p := range paths {
-		if !p.Succ {
-			continue
+	if fp, nOut, folded := jsMarshalByFold(P, mfn, schemaT, objT, tags); folded {
+		texts := map[string]string{
+			"JS-BAL":  "every success outcome is { (name value)* }",
+			"JS-KEY":  "every name written is the JSON name of the field whose value follows it, \"type\" being followed by the schema's Type",
+			"JS-EXH":  "each complex type writes the attribute the specification gives it, from its own field, and no other type's",
+			"JS-COND": "logicalType, name and namespace are present exactly on the outcomes that found them non-empty",
 		}
-		evs, unknown := p.Events, p.Unknown
-		for _, u := range unknown {
+		nProb := 0
+		for _, r := range []string{"JS-BAL", "JS-KEY", "JS-EXH", "JS-COND"} {
+			nProb += len(fp[r])
+		}
+		if nProb == 0 {
+			// the fold decides all four rules; the reading of the token sequences off the source is not needed
+			for _, r := range []string{"JS-BAL", "JS-KEY", "JS-EXH", "JS-COND"} {
+				c.Rule(r, "an optional attribute is written on every path on which it is known to be non-empty (emptiness is the only reason to leave it out)", 1)
+				c.cur.Min = 1
+				c.OK(fnKey(mfn)+"/by-fold", P.pos(mfn.Pos()), fmt.Sprintf("MarshalJSONTo folded for a schema of each of 7 types with the object's attributes unknown (%d success outcomes): %s", nOut, texts[r]))
+			}
+			goto unmarshalSide
+		}
+		for _, r := range []string{"JS-BAL", "JS-KEY", "JS-EXH", "JS-COND"} {
+			if len(fp[r]) > 0 {
+				c.Rule(r, "an optional attribute is written on every path on which it is known to be non-empty (emptiness is the only reason to leave it out)", 1)
+				c.Bad(fnKey(mfn)+"/by-fold", P.pos(mfn.Pos()), strings.Join(fp[r], "; "))
+			}
+		}
+		c.Rule("JS-EXH", "", 0)
+	}
+	{
+		paths, ok := jsPathsOf(P, mfn, 0)
+		if !ok {
 			c.Rule("JS-BAL", "", 0)
-			c.Unk(fnKey(mfn)+"/token", P.pos(mfn.Pos()), u)
+			c.Unk(fnKey(mfn)+"/paths", P.pos(mfn.Pos()), "path budget exceeded")
+			return
 		}
-		hasBegin := false
-		for _, e := range evs {
-			if e.Kind == "begin" || e.Kind == "end" {
-				hasBegin = true
-			}
+		typePath := "*(s->Type)"
+		if len(mfn.Params) > 0 {
+			typePath = "*(" + mfn.Params[0].Name() + "->Type)"
 		}
-		if !hasBegin {
-			continue // union / primitive form
-		}
-		nObj++
-		// shape: begin (name value)* end
-		if len(evs) < 2 || evs[0].Kind != "begin" || evs[len(evs)-1].Kind != "end" {
-			balanced, balWhy = false, "a success path does not start with BeginObject and finish with EndObject"
-			continue
-		}
-		inner := evs[1 : len(evs)-1]
-		if len(inner)%2 != 0 {
-			balanced, balWhy = false, "a success path writes an odd number of tokens between the braces"
-			continue
-		}
-		st, exact, _ := p.State.strOf(typePath)
-		for i := 0; i+1 < len(inner); i += 2 {
-			n, v := inner[i], inner[i+1]
-			if n.Kind != "name" || v.Kind != "value" {
-				balanced, balWhy = false, "names and values do not alternate at "+P.pos(n.Pos)
+		balanced := true
+		balWhy := ""
+		nObj := 0
+		written := map[string]bool{}               // SchemaObject fields written on some path
+		attrByType := map[string]map[string]bool{} // s.Type constant -> names written
+		keyOK := map[string]string{}               // name -> "" ok or reason
+		for _, p := range paths {
+			if !p.Succ {
 				continue
 			}
-			// which field does the value come from?
-			vp := v.Path
-			field := ""
-			if vp == typePath {
-				field = "Type"
-			} else if i := strings.LastIndex(vp, "->Object)->"); i >= 0 {
-				field = strings.TrimSuffix(vp[i+len("->Object)->"):], ")")
+			evs, unknown := p.Events, p.Unknown
+			for _, u := range unknown {
+				c.Rule("JS-BAL", "", 0)
+				c.Unk(fnKey(mfn)+"/token", P.pos(mfn.Pos()), u)
 			}
-			if field == "" {
-				keyOK[n.Name] = "the value written under " + n.Name + " is not a field of the schema (" + vp + ")"
-				continue
-			}
-			written[field] = true
-			if tags[field] != n.Name {
-				keyOK[n.Name] = fmt.Sprintf("key %q is followed by the value of field %s, whose JSON name is %q", n.Name, field, tags[field])
-			} else if _, bad := keyOK[n.Name]; !bad {
-				keyOK[n.Name] = ""
-			}
-			if exact {
-				if attrByType[st] == nil {
-					attrByType[st] = map[string]bool{}
-				}
-				attrByType[st][n.Name] = true
-			}
-		}
-	}
-	// JS-COND: an optional attribute is written whenever it is non-empty
-	c.Rule("JS-COND", "an optional attribute is written on every path on which it is known to be non-empty (emptiness is the only reason to leave it out)", 3)
-	condBad := map[string]string{}
-	condSeen := map[string]bool{}
-	for _, p := range paths {
-		if !p.Succ {
-			continue
-		}
-		evs := p.Events
-		if len(evs) == 0 || evs[0].Kind != "begin" {
-			continue
-		}
-		wrote := map[string]bool{}
-		for _, e := range evs {
-			if e.Kind == "name" {
-				wrote[e.Name] = true
-			}
-		}
-		for k, m := range p.State.ne {
-			i := strings.LastIndex(k, "->Object)->")
-			if i < 0 || !m["s:"] {
-				continue
-			}
-			field := strings.TrimSuffix(k[i+len("->Object)->"):], ")")
-			tag, known := tags[field]
-			if !known {
-				continue
-			}
-			condSeen[field] = true
-			if !wrote[tag] {
-				condBad[field] = fmt.Sprintf("there is a path on which %s is non-empty and yet %q is not written", field, tag)
-			}
-		}
-	}
-	// ... and on every object path it is either written or known to be empty: a path that never looks at it loses it
-	for _, p := range paths {
-		if !p.Succ || len(p.Events) == 0 || p.Events[0].Kind != "begin" {
-			continue
-		}
-		wrote := map[string]bool{}
-		for _, e := range p.Events {
-			if e.Kind == "name" {
-				wrote[e.Name] = true
-			}
-		}
-		for f := range condSeen {
-			if wrote[tags[f]] || condBad[f] != "" {
-				continue
-			}
-			knownEmpty := false
-			for k, v := range p.State.eq {
-				if strings.HasSuffix(k, "->Object)->"+f+")") && v == "s:" {
-					knownEmpty = true
+			hasBegin := false
+			for _, e := range evs {
+				if e.Kind == "begin" || e.Kind == "end" {
+					hasBegin = true
 				}
 			}
-			if !knownEmpty {
-				st, exact, _ := p.State.strOf(typePath)
-				where := "some schema type"
+			if !hasBegin {
+				continue // union / primitive form
+			}
+			nObj++
+			// shape: begin (name value)* end
+			if len(evs) < 2 || evs[0].Kind != "begin" || evs[len(evs)-1].Kind != "end" {
+				balanced, balWhy = false, "a success path does not start with BeginObject and finish with EndObject"
+				continue
+			}
+			inner := evs[1 : len(evs)-1]
+			if len(inner)%2 != 0 {
+				balanced, balWhy = false, "a success path writes an odd number of tokens between the braces"
+				continue
+			}
+			st, exact, _ := p.State.strOf(typePath)
+			for i := 0; i+1 < len(inner); i += 2 {
+				n, v := inner[i], inner[i+1]
+				if n.Kind != "name" || v.Kind != "value" {
+					balanced, balWhy = false, "names and values do not alternate at "+P.pos(n.Pos)
+					continue
+				}
+				// which field does the value come from?
+				vp := v.Path
+				field := ""
+				if vp == typePath {
+					field = "Type"
+				} else if i := strings.LastIndex(vp, "->Object)->"); i >= 0 {
+					field = strings.TrimSuffix(vp[i+len("->Object)->"):], ")")
+				}
+				if field == "" {
+					keyOK[n.Name] = "the value written under " + n.Name + " is not a field of the schema (" + vp + ")"
+					continue
+				}
+				written[field] = true
+				if tags[field] != n.Name {
+					keyOK[n.Name] = fmt.Sprintf("key %q is followed by the value of field %s, whose JSON name is %q", n.Name, field, tags[field])
+				} else if _, bad := keyOK[n.Name]; !bad {
+					keyOK[n.Name] = ""
+				}
 				if exact {
-					where = "type " + st
+					if attrByType[st] == nil {
+						attrByType[st] = map[string]bool{}
+					}
+					attrByType[st][n.Name] = true
 				}
-				condBad[f] = fmt.Sprintf("for %s there is a path that neither writes %q nor has found %s empty: a non-empty %s is dropped when such a schema is serialised", where, tags[f], f, f)
 			}
 		}
-	}
-	var cf []string
-	for f := range condSeen {
-		cf = append(cf, f)
-	}
-	sort.Strings(cf)
-	for _, f := range cf {
-		c.Check(condBad[f] == "", fnKey(mfn)+"/when-set["+f+"]", P.pos(mfn.Pos()), "written on every path where it is non-empty", condBad[f])
-	}
-	c.Rule("JS-BAL", "", 0)
-	c.Check(balanced && nObj > 0, fnKey(mfn)+"/object-form", P.pos(mfn.Pos()), fmt.Sprintf("all %d success paths of the object form are BeginObject (name value)* EndObject", nObj), balWhy)
-	c.Rule("JS-KEY", "", 0)
-	var names []string
-	for n := range keyOK {
-		names = append(names, n)
-	}
-	sort.Strings(names)
-	for _, n := range names {
-		c.Check(keyOK[n] == "", fnKey(mfn)+"/key["+n+"]", P.pos(mfn.Pos()), "followed by its own field's value on every path", keyOK[n])
-	}
-	c.Rule("JS-EXH", "", 0)
-	for _, f := range fields {
-		if _, known := avroAttrNames[f]; !known {
-			continue
-		}
-		c.Check(written[f], fnKey(mfn)+"/writes["+f+"]", P.pos(mfn.Pos()), "written on some path", fmt.Sprintf("attribute %s (%q) is never written: it is lost when a schema is serialised", f, tags[f]))
-	}
-	var sts []string
-	for st := range specAttr {
-		sts = append(sts, st)
-	}
-	sort.Strings(sts)
-	for _, st := range sts {
-		attr := specAttr[st]
-		c.Check(attrByType[st][attr], fnKey(mfn)+"/type["+st+"]", P.pos(mfn.Pos()), fmt.Sprintf("%s writes %q", st, attr), fmt.Sprintf("a %s schema is written without its %q attribute", st, attr))
-		for other, oattr := range specAttr {
-			if other != st && attrByType[st][oattr] {
-				c.Bad(fnKey(mfn)+"/type["+st+"]/extra", P.pos(mfn.Pos()), fmt.Sprintf("a %s schema also writes %q, the attribute of %s", st, oattr, other))
+		// JS-COND: an optional attribute is written whenever it is non-empty
+		c.Rule("JS-COND", "an optional attribute is written on every path on which it is known to be non-empty (emptiness is the only reason to leave it out)", 3)
+		condBad := map[string]string{}
+		condSeen := map[string]bool{}
+		for _, p := range paths {
+			if !p.Succ {
+				continue
+			}
+			evs := p.Events
+			if len(evs) == 0 || evs[0].Kind != "begin" {
+				continue
+			}
+			wrote := map[string]bool{}
+			for _, e := range evs {
+				if e.Kind == "name" {
+					wrote[e.Name] = true
+				}
+			}
+			for k, m := range p.State.ne {
+				i := strings.LastIndex(k, "->Object)->")
+				if i < 0 || !m["s:"] {
+					continue
+				}
+				field := strings.TrimSuffix(k[i+len("->Object)->"):], ")")
+				tag, known := tags[field]
+				if !known {
+					continue
+				}
+				condSeen[field] = true
+				if !wrote[tag] {
+					condBad[field] = fmt.Sprintf("there is a path on which %s is non-empty and yet %q is not written", field, tag)
+				}
 			}
 		}
-	}
+		// ... and on every object path it is either written or known to be empty: a path that never looks at it loses it
+		for _, p := range paths {
+			if !p.Succ || len(p.Events) == 0 || p.Events[0].Kind != "begin" {
+				continue
+			}
+			wrote := map[string]bool{}
+			for _, e := range p.Events {
+				if e.Kind == "name" {
+					wrote[e.Name] = true
+				}
+			}
+			for f := range condSeen {
+				if wrote[tags[f]] || condBad[f] != "" {
+					continue
+				}
+				knownEmpty := false
+				for k, v := range p.State.eq {
+					if strings.HasSuffix(k, "->Object)->"+f+")") && v == "s:" {
+						knownEmpty = true
+					}
+				}
+				if !knownEmpty {
+					st, exact, _ := p.State.strOf(typePath)
+					where := "some schema type"
+					if exact {
+						where = "type " + st
+					}
+					condBad[f] = fmt.Sprintf("for %s there is a path that neither writes %q nor has found %s empty: a non-empty %s is dropped when such a schema is serialised", where, tags[f], f, f)
+				}
+			}
+		}
+		var cf []string
+		for f := range condSeen {
+			cf = append(cf, f)
+		}
+		sort.Strings(cf)
+		for _, f := range cf {
+			c.Check(condBad[f] == "", fnKey(mfn)+"/when-set["+f+"]", P.pos(mfn.Pos()), "written on every path where it is non-empty", condBad[f])
+		}
+		c.Rule("JS-BAL", "", 0)
+		c.Check(balanced && nObj > 0, fnKey(mfn)+"/object-form", P.pos(mfn.Pos()), fmt.Sprintf("all %d success paths of the object form are BeginObject (name value)* EndObject", nObj), balWhy)
+		c.Rule("JS-KEY", "", 0)
+		var names []string
+		for n := range keyOK {
+			names = append(names, n)
+		}
+		sort.Strings(names)
+		for _, n := range names {
+			c.Check(keyOK[n] == "", fnKey(mfn)+"/key["+n+"]", P.pos(mfn.Pos()), "followed by its own field's value on every path", keyOK[n])
+		}
+		c.Rule("JS-EXH", "", 0)
+		for _, f := range fields {
+			if _, known := avroAttrNames[f]; !known {
+				continue
+			}
+			c.Check(written[f], fnKey(mfn)+"/writes["+f+"]", P.pos(mfn.Pos()), "written on some path", fmt.Sprintf("attribute %s (%q) is never written: it is lost when a schema is serialised", f, tags[f]))
+		}
+		var sts []string
+		for st := range specAttr {
+			sts = append(sts, st)
+		}
+		sort.Strings(sts)
+		for _, st := range sts {
+			attr := specAttr[st]
+			c.Check(attrByType[st][attr], fnKey(mfn)+"/type["+st+"]", P.pos(mfn.Pos()), fmt.Sprintf("%s writes %q", st, attr), fmt.Sprintf("a %s schema is written without its %q attribute", st, attr))
+			for other, oattr := range specAttr {
+				if other != st && attrByType[st][oattr] {
+					c.Bad(fnKey(mfn)+"/type["+st+"]/extra", P.pos(mfn.Pos()), fmt.Sprintf("a %s schema also writes %q, the attribute of %s", st, oattr, other))
+				}
+			}
+		}
 
+	}
+unmarshalSide:
 	// ---- unmarshal side
 	c.Rule("JS-HOIST", "parsing dispatches on string / array / object, sets Type from the token, to \"union\", or hoists it out of the object (clearing it there); anything else is an error", 4)
+	if jsHoistByFold(c, ufn) {
+		return
+	}
 	upaths, ok := enumeratePaths(ufn)
 	if !ok {
 		c.Unk(fnKey(ufn)+"/paths", P.pos(ufn.Pos()), "path budget exceeded")
